@@ -1,2 +1,3 @@
 OPEN "a.txt" FOR OUTPUT AS #1
-OPEN "pre.txt" FOR OUTPUT AS #1
+PRINT #1, "p" + CHR$(200) + "q"
+OPEN "a.txt" FOR OUTPUT AS #1
